@@ -722,6 +722,15 @@ def corpus(tier):
             tags=("class", "extends", "override"),
         )
     )
+    U.append(
+        Unit(
+            "static_methods",
+            "class SCounter:\n    n: int\n\n    def zero() -> int:\n        return 0\n\n    def twice(k: int) -> int:\n        return k * 2\n\n    def total(self) -> int:\n        return self.n + SCounter.twice(1)\n\n\ndef sm_use(a: int) -> int:\n    return SCounter.twice(a) + SCounter.zero()",
+            "println(sm_use(4))\nprintln(SCounter.twice(5))\nprintln(SCounter(n=1).total())",
+            py_decls="@dataclass\nclass SCounter:\n    n: int\n\n    @staticmethod\n    def zero():\n        return 0\n\n    @staticmethod\n    def twice(k):\n        return k * 2\n\n    def total(self):\n        return self.n + SCounter.twice(1)\n\n\ndef sm_use(a):\n    return SCounter.twice(a) + SCounter.zero()",
+            tags=("class", "static-method", "static-call-inside-function-and-method"),
+        )
+    )
     # ---- feature interactions: inheritance x traits (the member that satisfies the trait lives in an ancestor) -------------
     U.append(
         Unit(
